@@ -946,7 +946,9 @@ def should_unwrap(obj: type) -> bool:
 
     This is useful for determining what type to use at run-time for coercion.
     """
-    return (not isliteral(obj)) and any(x(obj) for x in _UNWRAPPABLE)
+    # A qualifier is peeled whatever it wraps: `isliteral` sees through `ClassVar`,
+    #   so it can't be used to rule the qualifier out (`ClassVar[Literal[1]]`).
+    return any(x(obj) for x in _UNWRAPPABLE)
 
 
 @compat.cache
